@@ -23,6 +23,10 @@ claimed = {
          "TLC schedule graph replayed on real goroutines through gate hooks (+ race-detector stress validated by a trace specification)", "5"),
  "C06": (MC, "TLC checks ReadsNeverWait (ENABLED of every read step in every reachable state, whoever holds the lock) and ReaderProgress under fairness on reader steps only; every reader edge of the schedule graph is replayed through ten read entry points while the writers stay parked at every verification point, and a blocked second writer must not pass the lock.",
          "parked-writer schedules from TLC replayed through every read entry point", "5"),
+ "C10": (MC, "TLC evaluates the grammar predicate of spec/FoxPattern.tla (written on the character sequence, not as the parser's state machine) on every string over {/ a . { } * - 1} up to a bounded length under three parameter-limit configurations and checks the routability theorem for every accepted pattern; the real registration must accept exactly the listed strings (Handle, NewRoute, Delete agree, never a panic) and route every instantiation with the prescribed parameters. Long random patterns around the 63/255 limits are recorded from the real code and validated by TLC (Obs_Pattern); arbitrary bytes for crash-freedom.",
+         "TLC-enumerated grammar verdicts and instantiations replayed on the real router; recorded verdicts validated by TLC", "5"),
+ "C17": (MC, "TLC checks idempotence, canonicity, fixed point and the trailing-slash rule of the reference Clean on every string over {/ . a % rune} up to a bounded length and emits (input, canonical form) pairs compared with fox.CleanPath; long random inputs crossing the 128-byte buffer are recorded from the real code and validated by TLC (Obs_Clean).",
+         "TLC-enumerated CleanPath vectors replayed; recorded outputs validated by TLC", "5"),
  "C11": (MC, "TLC exhausts FoxServe!Reply over tables on several methods x the four option combinations x per-route trailing-slash options x requests (incl. OPTIONS *); status, handler kind, Allow (as a set) and the context of special handlers are compared through ServeHTTP.",
          "TLC-enumerated dispatch vectors (404/405/OPTIONS/Allow) replayed through ServeHTTP", "5"),
 }
